@@ -212,7 +212,8 @@ func poolUseOK(fn *ssa.Function, get *ssa.Call) (bool, string) {
 						mark(x)
 					}
 				case *ssa.UnOp:
-					if T[x.X] {
+					// a scalar read out of pooled memory is a copy, not an alias
+					if T[x.X] && (x.Op != token.MUL || isSharedRef(x.Type())) {
 						mark(x)
 					}
 					if al, ok := x.X.(*ssa.Alloc); ok && cells[al] {
